@@ -26,7 +26,7 @@ RULE = ("cases: plog models of every class (integer leaves, explicit and generat
 BUDGET = {"quick": (12, 220, 90), "thorough": (16, 2200, 1200)}
 PYTEST = True     # thorough tier also runs the repository's own tests under these monitors
 MANDATORY = ["judged:proposition:structure", "judged:proposition:text", "judged:proposition:queries", "judged:polyhedron:structure",
-             "judged:polyhedron:select", "judged:polyhedron:writeable", "contract:AtLeast.to_b64", "contract:ge_polyhedron_config.to_b64", "count:with-defaults", "count:xnor-or-imply", "count:derived-by-assume", "count:derived-by-reduce", "count:packed-after-use", "judged:second-unpack-independent-of-first"]
+             "judged:polyhedron:select", "judged:polyhedron:writeable", "contract:AtLeast.to_b64", "contract:ge_polyhedron_config.to_b64", "count:with-defaults", "count:xnor-or-imply", "count:derived-by-assume", "count:derived-by-reduce", "count:packed-after-use", "judged:second-unpack-independent-of-first", "count:not-validated-models"]
 
 _n = 0
 
@@ -94,8 +94,20 @@ def battery(m, seed, is_cfg):
 def prop_post(pre, args, kwargs, result):
     ctx = monitor.CTX
     self = args[0]
-    if adapters.is_leaf(self) or adapters.validated(self, need_no_prefixed=False) is None:
+    if adapters.is_leaf(self):
         raise monitor.OutOfScope()
+    if adapters.validated(self, need_no_prefixed=False) is None:
+        # a model that validation rejects can still be packed; the copy must have the same structure, text and errors()
+        from . import c10
+        if c10.has_cycle_objects(self):
+            raise monitor.OutOfScope()
+        ctx.count("count:not-validated-models")
+        back = ctx.call("from_b64", pg.from_b64, result)
+        s1, s2 = digest.state(self), digest.state(back)
+        ctx.check(s1 == s2 and type(back) is type(self), "proposition:structure", lambda: {"model": adapters.model_text(self), "diff": digest.first_diff(s1, s2)})
+        ctx.check(self.to_text() == back.to_text() and sorted(map(str, self.errors())) == sorted(map(str, back.errors())), "proposition:text",
+                  lambda: {"before": self.to_text(), "after": back.to_text()})
+        return True
     back = ctx.call("from_b64", pg.from_b64, result)
     wit = {"recipe": (ctx.case or {}).get("recipe"), "model": adapters.model_text(self)}
     s1, s2 = digest.state(self), digest.state(back)
@@ -174,6 +186,9 @@ def install(ctx):
 
 
 def gen_case(rng, tier, ctx, i):
+    if rng.random() < 0.06:
+        from . import c10
+        return {"ill": rng.choice(c10.ILL), "seed": rng.getrandbits(32), "cfg": rng.random() < 0.5}
     if tier == "thorough" and i == 1 and ctx.seed % 1000 == 0:
         return {"big": 9000, "cfg": False}            # nothing in the statement bounds the size of the proposition
     if rng.random() < 0.2:
@@ -197,6 +212,13 @@ def gen_case(rng, tier, ctx, i):
 
 
 def run_case(case, ctx):
+    if "ill" in case:
+        from . import c10
+        m = c10.build_ill(case["ill"], random.Random(case["seed"]))
+        if case["cfg"]:
+            m = cc.StingyConfigurator(m, "zz", id="cfg")
+        ctx.call("to_b64", m.to_b64)
+        return
     if "big" in case:
         n = case["big"]
         rules = [pg.Imply(pg.All("c%d" % k, "d%d" % k), cc.Xor("x%d" % k, "y%d" % k, default=["x%d" % k])) for k in range(n)]
